@@ -73,6 +73,10 @@ def bank_cfg(rng, kind=None, max_filts=40, gammatone_scope_c07=False):
         for k in ("low_hz", "high_hz"):
             if cfg[k] is not None:
                 kinds[k] = str(rng.choice(["int", "np.int64", "np.int32"])) if float(cfg[k]).is_integer() else "np.float64"
+        # ... and the flags as NumPy booleans or as 0 / 1 (no further random draws: tied to the choice above)
+        for k in ("analytic", "erb", "scale_l2_norm", "max_centered"):
+            if k in cfg:
+                kinds[k] = "np.bool_" if kinds["num_filts"] == "np.int64" else "int"
         cfg["_kinds"] = kinds
     return cfg
 
